@@ -82,6 +82,11 @@ def main():
     shutil.copy(patch, os.path.join(dst, "patch.diff"))
     shutil.copy(demo, os.path.join(dst, "demo.rs"))
     meta["breaks_property"] = prop
+    if skip_confirm:
+        try:      # keep the record of the confirmation done when the change was first filed
+            ran = json.load(open(os.path.join(ROOT, "seeded", name, "meta.json"))).get("confirmed", [])
+        except Exception:
+            pass
     meta["confirmed"] = ran
     meta["checks_run"] = results
     meta["detected_by_owner"] = results.get(prop, {}).get("exit") == 1
